@@ -76,6 +76,10 @@ def run(tier):
     # variant indices of the foreign enum: InputEmpty=0, OutputFull=1, Malformed=2 (declaration order in encoding_rs); confirm through the
     # downcast names used in the arms
     m, other = cfg.switch_edge_blocks(dl, bb)
+    missing = [v for v in (0, 1, 2) if v not in m]
+    if len(missing) == 1 and other is not None and dl.blocks[other]["term"]["k"] != "unreachable":
+        m = dict(m)
+        m[missing[0]] = other      # written as `if let` / with a catch-all arm: the unlisted variant takes the otherwise edge
     arm_names = {}
     for v, tg in m.items():
         names = set()
